@@ -66,6 +66,8 @@ func main() {
 		var lc envdrv.LongCfg
 		die(json.Unmarshal([]byte(*cfgJSON), &lc))
 		die(envdrv.Long(lc, *seed, *trace, *out))
+	case "env-stress":
+		die(envdrv.Stress(16, *long, 4, *seed, *trace, *out))
 	case "part-replay":
 		die(partdrv.Replay(*in, *trace, *out, "s", "p"))
 	case "tamper-replay":
